@@ -18,9 +18,16 @@ func violationClass(v Violation) string { return v.Property + "/" + v.Clause }
 func Minimise(t *testing.T, def *CheckDef, plan *Plan, class string, deadline time.Time) (*Plan, string, int) {
 	runs := 0
 	lastSig := ""
+	exec := func(p *Plan) *RunResult {
+		if def.Exec != nil {
+			return def.Exec(t, p)
+		}
+		r, _ := Execute(t, p, def.Oracle, def.Final, false)
+		return r
+	}
 	test := func(p *Plan) bool {
 		runs++
-		res, _ := Execute(t, p.Clone(), def.Oracle, def.Final, false)
+		res := exec(p.Clone())
 		for _, v := range res.Violations {
 			if class == "" || violationClass(v) == class {
 				lastSig = v.Signature()
@@ -31,7 +38,7 @@ func Minimise(t *testing.T, def *CheckDef, plan *Plan, class string, deadline ti
 	}
 	cur := plan.Clone()
 	{
-		res, _ := Execute(t, cur.Clone(), def.Oracle, def.Final, false)
+		res := exec(cur.Clone())
 		runs++
 		if len(res.Violations) == 0 {
 			return cur, "", runs
